@@ -12,7 +12,7 @@ def run_api(ck, mode, n, seed, out):
     if os.path.exists(out):
         os.remove(out)
     while start < n:
-        d = vlib.run_driver(drv, [n, seed, start, out], timeout=3000)
+        d = vlib.run_driver(drv, [n, seed, start, out], timeout=max(240, n // 1000))
         if d["rc"] == 0 and not d["timeout"]:
             break
         last = -1
